@@ -214,10 +214,27 @@ def findNextWordEnd (st : LexState N) : Nat :=
 
 /-! ### find_word_start -/
 
-/-- `char_indices.as_str().starts_with("'n'")` -/
-def startsWithNApos : List Char → Bool
-  | '\'' :: 'n' :: '\'' :: _ => true
-  | _ => false
+/-- `char::to_ascii_lowercase` -/
+def toAsciiLower (c : Char) : Char :=
+  if 'A' ≤ c ∧ c ≤ 'Z' then Char.ofNat (c.toNat + 32) else c
+
+/-- `buf.get(..text.len())` followed by `eq_ignore_ascii_case(text)`, for an ASCII literal `text`
+    (`'n'`, `'s`, `'re`): does `buf` start with `text` up to ASCII letter case?  Stated on
+    characters: the first `text.len()` characters of `buf` exist and are, one by one,
+    ASCII-case-equal to those of `text`.  This is what the Rust code computes on bytes: a
+    non-ASCII character is never ASCII-case-equal to an ASCII one (`to_ascii_lowercase` fixes it),
+    so whenever `get(..n)` answers `None` because `n` is past the end or inside a multi-byte
+    character, or the `n` bytes contain a byte ≥ 0x80, one of the first characters of `buf` is
+    missing or not ASCII and the test below is false as well; conversely, characters that are
+    ASCII-case-equal to ASCII ones are one byte each, so the first `n` bytes are exactly the
+    first `n` characters. -/
+def startsWithIgnoreAsciiCase : Str → Str → Bool
+  | [], _ => true
+  | _ :: _, [] => false
+  | d :: ds, c :: cs => toAsciiLower c == toAsciiLower d && startsWithIgnoreAsciiCase ds cs
+
+/-- `char_indices.as_str().get(..3).map_or(false, |p| p.eq_ignore_ascii_case("'n'"))` -/
+def startsWithNApos (rest : List Char) : Bool := startsWithIgnoreAsciiCase (str% "'n'") rest
 
 /-- `char_indices.find(|&(_, c)| !is_ignorable_whitespace(c))`:
     (index, char, remaining chars, their index) -/
@@ -238,13 +255,14 @@ def findWordStart (rest : List Char) (pos : Nat) : Option (Nat × Char × List C
 /-! ### scanners. They run on the state right after `find_word_start` consumed the start char. -/
 
 /-- `scan_for_text` (`text` is one of the ASCII literals `'n'`, `'s`, `'re`: the two
-    `debug_assert!`s hold statically) -/
+    `debug_assert!`s hold statically). The text is matched up to ASCII letter case; the token
+    spans `text.len()` bytes of the SOURCE (its spelling is the source slice, e.g. `'S`). -/
 def scanForText (st : LexState N) (start : Nat) (text : Str) (kind : TK) :
     L (Option (LexResult N)) :=
   (sub st start (ulen st.src)).bind fun bufText =>
-  match stripPrefix? text bufText with
-  | none => .ok none
-  | some _ =>
+  match startsWithIgnoreAsciiCase text bufText with
+  | false => .ok none
+  | true =>
     (makeTokenFrom st start (ulen text) kind).bind fun tok =>
     .ok (some { token := tok, stop := start + ulen text, newlines := 0, newLineStart := none })
 
